@@ -80,6 +80,19 @@ claim("C17", "Shape S_law: every == returns a fresh nondeterministic bool, pre-s
 claim("C18", "insert_unchecked under (len<N or key present): Verus proves for all N that insert_i meets the full insert contract (result, slot permutation, stored-key identity, wf) and that its debug_assert holds exactly under that precondition; Kani proves insert_unchecked against the same model contract as insert and the ledger; "
       "get_disjoint_unchecked_mut under pairwise different keys satisfies the C13 contract.", BOUND + TB, "Verus contract on insert_i (all N); " + KH, "DESIGN 6/C18")
 
+claim("C19", "Shape S_fmt (one marker byte per element, comparing sink over a fixed buffer): Display of Map/Set equals '{' + entries joined by ', ' + '}' built by hand; Debug of Map/Set equals core::fmt's debug_map/debug_set over an independently built array of the entries; "
+      "Debug of Iter, IterMut, Keys, Values, ValuesMut, IntoIter, IntoKeys, IntoValues, Drain after a given number of steps equals debug_list of the not-yet-yielded entries; Debug of Union/Intersection/Difference equals debug_list of what a clone still yields; container unchanged.",
+      "Bounded: N<=2 quick / 3 thorough with every fill level; the alternate form {:#?} only for the empty container in quick and N=1 in thorough (core's PadAdapter costs ~12 min per entry under CBMC); SymmetricDifference and DifferenceRef Debug only in thorough / not covered. core::fmt is verified along, not trusted. " + TB,
+      KH + " with an oracle rendered by core::fmt itself", "DESIGN 6/C19")
+claim("C20", "With --features serde: bincode (legacy config) encode_into_slice announces len() and emits exactly len() entries (8+2*len bytes; 8+len for sets); decode_from_slice into a container of capacity M>=len (including M==len, M>N) yields an equal container with exactly the original bindings and consumes all bytes; Map and Set; every fill level.",
+      "Bounded: N,M<=2 quick / 3 thorough; serde 1.0.219 and bincode 2.0.1 are trusted (verified along by CBMC but not specified). " + TB, KH + " on the serde feature build", "DESIGN 6/C20")
+CLAIMS["C06"] = ("(a) every reference handed out (get, get_mut, get_key_value, Index, entry API, iterators, set adaptors, get_disjoint_mut, Set::get) lies inside the bytes of the container: Kani postconditions; "
+                 "(b) for one harness per operation, instantiated with non-allocating element types and a buffer sink, the reachable call graph of Kani's linked program contains no function of crate alloc and no allocator entry point - with default features and with feature std; "
+                 "(c) the crate builds with #![no_std] active.",
+                 "Level 'other': (b) is a sound static over-approximation on the verifier's own program for the instantiated types, not a contract; it cannot see allocation inside user-supplied element types. " + TB,
+                 "reference-containment postconditions (Kani) + reachable-call-graph frame analysis (goto-instrument) + no_std build", "DESIGN 6/C06")
+CATEGORY = {"C06": "other"}
+
 NOT_YET.update({
 })
 
@@ -95,7 +108,7 @@ def main():
             "evidence_file": "/verif/evidence/%s.json" % pid,
             "replay_cmd_template": "./check %s --replay {path}" % pid,
             "engine": "contracts",
-            "level_claimed": {"category": "proof", "text": text, "design_ref": ref},
+            "level_claimed": {"category": CATEGORY.get(pid, "proof"), "text": text, "design_ref": ref},
             "level_note": note,
             "technique": tech,
         })
